@@ -84,6 +84,32 @@ def register(M):
         return M.set_card(S, st)
     B['card'] = b_card
 
+    def b_count_change(args, kw, st, node):
+        """L-CARD (one-point update): count_change(n, m, lambda i, j: Pold, lambda i, j: Pnew, a, b)
+        if Pold and Pnew agree everywhere on the box except possibly at (a, b) then
+        count(Pnew) - count(Pold) == [Pnew(a,b)] - [Pold(a,b)]"""
+        from .npmodel2 import count_instance
+        n, m = num(args[0]), num(args[1])
+        Po = lambda i, j: ex.truth(ex.call(args[2], [i, j], {}, st, node), st)
+        Pn = lambda i, j: ex.truth(ex.call(args[3], [i, j], {}, st, node), st)
+        a, b = Z(num(args[4])), Z(num(args[5]))
+        co = count_instance(M, st, [], lambda pv, ix: Po(ix[0], ix[1]), lambda pv: [n, m], 'cnt_old')()
+        cn = count_instance(M, st, [], lambda pv, ix: Pn(ix[0], ix[1]), lambda pv: [n, m], 'cnt_new')()
+        i, j = bvar('i'), bvar('j')
+        agree = forall([i, j], IMPLIES(AND(in_range(i, 0, n), in_range(j, 0, m), OR(i != a, j != b)), Z(Po(i, j)) == Z(Pn(i, j))))
+        one = lambda t: z3.If(Z(t), z3.IntVal(1), z3.IntVal(0))
+        ex.use('L-CARD:one-point update of a predicate changes its count by the change at that point [Lean: Lemmas.count_update]')
+        return IMPLIES(AND(in_range(a, 0, n), in_range(b, 0, m), agree), cn - co == one(Pn(a, b)) - one(Po(a, b)))
+    B['count_change'] = b_count_change
+
+    def b_consecutive_even(args, kw, st, node):
+        """p (p - 1) is even  [Lean: Lemmas.consecutive_even]"""
+        p = Z(num(args[0]))
+        h = z3.Int(fresh_name('half'))
+        ex.use('L-EVEN:p(p-1) is even [Lean: Lemmas.consecutive_even]')
+        return p * (p - 1) == 2 * h
+    B['consecutive_even'] = b_consecutive_even
+
     def b_card_le(args, kw, st, node):
         raise Unsupported('card_le')
 
